@@ -90,9 +90,14 @@ def enc(v, ids, depth=0):
     return ["HOST", type(v).__name__]
 
 
-def encpy(v, depth=0, _path=None):
+def encpy(v, depth=0, _path=None, _budget=None):
     """Typed snapshot of a Python-side value (what eval/get hand to the embedder); a container met again on its own path is
-    recorded as ["cyc"] (results of cyclic script values are cyclic Python structures)."""
+    recorded as ["cyc"] (results of cyclic script values are cyclic Python structures).  The snapshot is a tree: a result in
+    which one container is shared many times (9000 references to one 9000-element array) would unfold to its full size, so
+    after 300000 nodes further containers are recorded as ["big"] (the harness must not run out of memory where the engine did not)."""
+    if _budget is None:
+        _budget = [300000]
+    _budget[0] -= 1
     if v is None:
         return ["N"]
     if v is True or v is False:
@@ -107,14 +112,16 @@ def encpy(v, depth=0, _path=None):
     if depth > 400:
         return ["deep"]
     if t is list or t is dict:
+        if _budget[0] < 0:
+            return ["big"]
         _path = _path if _path is not None else set()
         if id(v) in _path:
             return ["cyc"]
         _path.add(id(v))
         try:
             if t is list:
-                return ["l", [encpy(x, depth + 1, _path) for x in v]]
-            return ["m", [[k if isinstance(k, str) else ["K", type(k).__name__], encpy(x, depth + 1, _path)] for k, x in v.items()]]
+                return ["l", [encpy(x, depth + 1, _path, _budget) for x in v]]
+            return ["m", [[k if isinstance(k, str) else ["K", type(k).__name__], encpy(x, depth + 1, _path, _budget)] for k, x in v.items()]]
         finally:
             _path.discard(id(v))
     if isinstance(v, mval.JSFunction):
